@@ -11,7 +11,7 @@ if [ "$MODE" = seeded ] || [ "$MODE" = all ]; then
     pid=$(python3 -c "import json;print(json.load(open('$d/meta.json'))['property'])" 2>/dev/null) || continue
     (cd /repo && git apply /verif/$d/patch.diff) 2>/dev/null || { echo "SEEDED $tag $pid: patch no longer applies"; continue; }
     out=$(./check $pid quick 2>&1 | grep -E "^VIOLATION|quick:")
-    git -C /repo checkout -- .
+    git -C /repo checkout -- . && git -C /repo clean -fdq src
     nv=$(echo "$out" | grep -c "^VIOLATION"); weak=$(echo "$out" | grep -c "no-failing-input-found")
     echo "SEEDED $tag $pid: $([ $nv -gt 0 ] && ([ $weak -gt 0 ] && echo "caught (no failing input)" || echo caught) || echo MISSED) :: $(echo "$out" | grep quick: | sed 's/.*quick: //')"
   done
@@ -26,10 +26,10 @@ if [ "$MODE" = benign ] || [ "$MODE" = all ]; then
       echo "$out" | grep -q "^VIOLATION" && alarms="$alarms C$i"
       echo "$out" | grep -E "^NOTE|BROKEN" | cut -c1-200 | sed "s/^/    [$tag C$i] /"
     done
-    git -C /repo checkout -- .
+    git -C /repo checkout -- . && git -C /repo clean -fdq src
     echo "BENIGN $tag: $([ -z "$alarms" ] && echo quiet || echo "ALARMS:$alarms")"
   done
 fi
-git -C /repo checkout -- .
+git -C /repo checkout -- . && git -C /repo clean -fdq src
 git checkout -- evidence lean/Rws/Gen 2>/dev/null
 (cd harness && RWS_SRC=/repo/src cargo build --offline >/dev/null 2>&1)
